@@ -53,11 +53,25 @@ type poolEntry struct {
 var seedExprs = []string{"$v | //*", "$w | $v", "//*/ancestor::* | $v", "$v[1] | $w[last()]", "//*", "//node()/preceding-sibling::node()", "count($v | //@*)", "$v/.. | //text()", "//*[. = $v]", "($v | $w)[position() mod 2 = 1]", "//*/namespace::* | $w", "$w/descendant-or-self::node() | $v"}
 // every builtin with two different arguments, so that hidden per-function
 // state (caches, scratch buffers) is reached by concurrent, differing calls
-var builtinExprs = []string{"//*[lang('en')]", "count(//*[lang('de')])", "//*[lang('en-US')]", "//*[lang('fr')]", "string-length(string(/))", "string-length('abc')",
-	"normalize-space(' a  b ')", "normalize-space(string(/))", "translate('abc','ab','xy')", "translate(string(/),'a','b')", "concat('a','b',string(/))", "concat(name(/*),'x')",
-	"substring('abcdef',2,3)", "substring(string(/),1,4)", "substring-before('a-b','-')", "substring-after(string(/),'a')", "starts-with(name(/*),'a')", "contains(string(/),'b')",
-	"sum(//*)", "sum(//@*)", "floor(1.5)", "ceiling(count(//*) div 2)", "round(2.5)", "number('12')", "number(/)", "name(//*[last()])", "local-name(//@*)", "namespace-uri(/*)",
-	"count(//node())", "not(//*)", "//*[position() = last()]", "//*[last() - 1]", "string(//text())", "//*/namespace::*[name() = 'xml']", "//p:* | //q:*", "//*:a | //*:b"}
+var builtinGroups = [][]string{
+	{"//*[lang('en')]", "count(//*[lang('de')])", "//*[lang('en-US')]", "//*[lang('fr')]", "//*[lang('en-GB')]"},
+	{"string-length(string(/))", "string-length('abc')", "string-length(name(/*))"},
+	{"normalize-space(' a  b ')", "normalize-space(string(/))"},
+	{"translate('abc','ab','xy')", "translate(string(/),'a','b')"},
+	{"concat('a','b',string(/))", "concat(name(/*),'x')"},
+	{"substring('abcdef',2,3)", "substring(string(/),1,4)"},
+	{"substring-before('a-b','-')", "substring-after(string(/),'a')", "substring-before(string(/),'b')"},
+	{"starts-with(name(/*),'a')", "contains(string(/),'b')", "contains('abc','c')"},
+	{"sum(//*)", "sum(//@*)"},
+	{"floor(1.5)", "ceiling(count(//*) div 2)", "round(2.5)", "round(count(//*) div 3)"},
+	{"number('12')", "number(/)", "number(//@*)"},
+	{"name(//*[last()])", "local-name(//@*)", "namespace-uri(/*)", "name(/*)"},
+	{"count(//node())", "count(//@*)", "not(//*)"},
+	{"//*[position() = last()]", "//*[last() - 1]", "//*[position() > 1]"},
+	{"string(//text())", "string(/)", "string(//@*)"},
+	{"//*/namespace::*[name() = 'xml']", "//*/namespace::*"},
+	{"//p:* | //q:*", "//*:a | //*:b", "//p:*/@q:*"},
+}
 
 var holdExprs = []string{"//*/ancestor::*", "//*", "//node()/preceding-sibling::node()", "//*[last()]/ancestor-or-self::*", "//@*", "//text()", "/*/*"}
 
@@ -153,25 +167,26 @@ func Run(t *simkit.Tape, o *simkit.Outcome, full bool) {
 	// the shared pool of compiled expressions
 	var pool []*poolEntry
 	np := 2 + t.Draw(5)
+	forced := ""
 	for i := 0; i < np; i++ {
 		var pe poolEntry
-		switch t.Pick(3, 3, 2) {
-		case 0:
-			pe.Str, pe.Type = seedExprs[t.Draw(len(seedExprs))], model.TNodeSet
-		case 1:
-			pe.Str, pe.Type = model.GenExprAny(t, env)
-		default:
-			pe.Str, pe.Type = builtinExprs[t.Draw(len(builtinExprs))], model.TStr
-			// pair it with a sibling call of the same builtin and another argument
-			if i%2 == 0 && i+1 < np {
-				k := t.Draw(len(builtinExprs)/2) * 2
-				pe.Str = builtinExprs[k]
-			} else if i > 0 {
-				for k, b := range builtinExprs {
-					if b == pool[i-1].Str && k%2 == 0 {
-						pe.Str = builtinExprs[k+1]
-					}
-				}
+		if forced != "" {
+			pe.Str, pe.Type = forced, model.TStr
+			forced = ""
+		} else {
+			switch t.Pick(3, 3, 2) {
+			case 0:
+				pe.Str, pe.Type = seedExprs[t.Draw(len(seedExprs))], model.TNodeSet
+			case 1:
+				pe.Str, pe.Type = model.GenExprAny(t, env)
+			default:
+				// a builtin together with a sibling call of the same builtin with
+				// another argument (next pool entry)
+				grp := builtinGroups[t.Draw(len(builtinGroups))]
+				a := t.Draw(len(grp))
+				b := (a + 1 + t.Draw(len(grp)-1)) % len(grp)
+				pe.Str, pe.Type = grp[a], model.TStr
+				forced = grp[b]
 			}
 		}
 		g, gerr := xsel.BuildExpr(pe.Str)
